@@ -58,8 +58,18 @@ impl Check for C08 {
         crate::hooks::graph_hook_reset();
         lsp::reset_log();
         mon::drain_thread_panics();
-        let mut s = Server::start_mem(&lib, "");
-        if resend {
+        // a third of the sessions start from an earlier version of the library in which the front matter differs (notes
+        // that have none had some, notes that have some had none): the edits that follow bring every note to its
+        // current text, and what rename moves must be the current text
+        let earlier = rng.chance(1, 3);
+        let mut s = if earlier {
+            let lib0: BTreeMap<String, String> = lib.iter().map(|(k, t)| (k.clone(), other_front_matter(t))).collect();
+            rep.count("sessions_from_earlier_front_matter", 1);
+            Server::start_mem(&lib0, "")
+        } else {
+            Server::start_mem(&lib, "")
+        };
+        if resend || earlier {
             for (k, t) in &lib {
                 s.did_change(k, t);
             }
@@ -153,6 +163,23 @@ impl Check for C08 {
         }
         rep
     }
+}
+
+/// the same note with its front matter removed, or with one added if it has none
+fn other_front_matter(text: &str) -> String {
+    let nl = if text.contains("\r\n") { "\r\n" } else { "\n" };
+    let lines: Vec<&str> = text.split_inclusive('\n').collect();
+    if lines.first().map(|l| l.trim_end() == "---").unwrap_or(false) {
+        if let Some(end) = lines.iter().skip(1).position(|l| l.trim_end() == "---" || l.trim_end() == "...") {
+            let rest: String = lines[end + 2..].concat();
+            let rest = rest.trim_start_matches(|c| c == '\n' || c == '\r').to_string();
+            if !rest.trim().is_empty() {
+                return rest;
+            }
+        }
+        return text.to_string();
+    }
+    format!("---{nl}status: draft{nl}---{nl}{nl}{}", text, nl = nl)
 }
 
 fn class_locus(class: &str, dir: &str) -> String {
